@@ -48,6 +48,9 @@ CHECKS = {
  "C14": ("progsim", "runtime monitoring: scripted inner streams/sinks driven call by call; same oracles as C13",
   "fastrace-futures InSpan around scripted Stream/Sink objects: poll_next/poll_ready/start_send/poll_flush/poll_close with Pending/item/None/Err outcomes, finish exactly on None / close / drop, final-call recordings complete, context restored.",
   "same as C13", "DESIGN.md §5 C14"),
+ "C15": ("twins", "runtime monitoring: differential oracle between annotated and unannotated twins of generated functions, plus record checks",
+  "~100 functions (hand-written corpus over the macro's accepted forms + seeded grammar-generated ones) exist as plain and #[trace] twins; on ~1500 inputs return values, ordered body side effects, panic payloads and dropped-argument multisets must be equal, without a local parent nothing may be recorded, under one the records must be one per traced entry with the configured / func_path!() name, the formatted properties, and the recorded (span, parent) pairs must equal the observed call tree.",
+  "the macro accepts any Rust function: the corpus is a grammar sample; relative drop order of arguments is not compared; for async-trait methods the name with or without ::{{closure}} is accepted", "DESIGN.md §5 C15"),
  "C16": ("inert+progsim", "runtime monitoring: closure-invocation / reporter-call / thread counters over random API sequences in a build without `enable`, closure counts vs model in the enabled build",
   "A binary linked against fastrace without `enable` (own workspace, so feature unification cannot turn it on) drives seeded random sequences over the whole public API: zero closure invocations, zero report() calls, unchanged /proc/self/task count across set_reporter and flush, None from from_span/current_local_parent/elapsed, empty to_span_records, unchanged results of #[trace] functions and adapters. Enabled build: for every closure-taking operation of generated programs the number of invocations must equal the model's (zero for no-op spans, spans derived from them, local operations without a recording scope); a separate process checks the calls made before set_reporter.",
   "closures given to Event::with_properties run eagerly in the enabled build by design and are not counted there", "DESIGN.md §5 C16"),
@@ -106,6 +109,8 @@ def main():
         "engines": [
             {"name": "codec", "path": "harness/hx/src/bin/codec.rs", "serves_properties": ["C12"],
              "kind_free_text": "pure-function monitoring of the text codecs against an independent reference"},
+            {"name": "twins", "path": "harness/twins/src/main.rs (+ tools/gen_twins.py)", "serves_properties": ["C15"],
+             "kind_free_text": "generated plain/#[trace] function twins run on the same inputs; differential + record oracle"},
             {"name": "wire", "path": "harness/hw/src/bin/wire.rs", "serves_properties": ["C19", "C20"],
              "kind_free_text": "real reporters -> loopback UDP / HTTP / capturing exporter -> independent decoders -> field-by-field comparison"},
             {"name": "inert", "path": "harness-inert/src/main.rs", "serves_properties": ["C16"],
